@@ -171,7 +171,12 @@ size_t x_ec_sweep(octet* out, const ec_o* ec, const octet* pts, size_t npts, uns
 				qrFrom(A + n, pts + i * 2 * no + no, f, st);
 			}
 			else if (i == npts)
+			{
+				/* ec.h: O is any projective point with Z == 0; in the scaled passes X and Y of the operand O hold field elements other than 0 */
 				ecSetO(A, ec), wwSetZero(A, 2 * n);
+				if (lambda)
+					wwCopy(A, lam, n), wwCopy(A + n, lam, n);
+			}
 			else
 			{
 				ecFrom(A, pts + i * 2 * no, ec, st);
@@ -187,7 +192,11 @@ size_t x_ec_sweep(octet* out, const ec_o* ec, const octet* pts, size_t npts, uns
 					qrFrom(B + n, pts + j * 2 * no + no, f, st);
 				}
 				else if (j == npts)
+				{
 					ecSetO(B, ec), wwSetZero(B, 2 * n);
+					if (lambda)
+						wwCopy(B, lam, n), wwCopy(B + n, f->unity, n);
+				}
 				else
 				{
 					ecFrom(B, pts + j * 2 * no, ec, st);
